@@ -92,10 +92,16 @@ class Config(Bunch, metaclass=NamespaceableMeta):
                 if key[0] != '!' and default_inline_tag:
                     yaml = default_inline_tag + ' { '
                 elif key[0] == '!' and len(key.split(None, 1)) == 2:
-                    # a tag typed in front of the name takes the place of the default one - in front of the mapping the option
-                    # is turned into, not on the key inside of it, where it would be ignored
+                    # a tag typed in front of the name is not left on the key inside the mapping the option is turned into, where it
+                    # would be ignored: !new / !notnew take the place of the default tag in front of that mapping, any other tag
+                    # (!force, !del, !merge...) is meant for the value - the override stays a !notnew one and touches nothing else
                     tag, key = key.split(None, 1)
-                    yaml = tag + ' { '
+                    if tag in ('!new', '!notnew'):
+                        yaml = tag + ' { '
+                    else:
+                        value = tag + ' ' + value
+                        if default_inline_tag:
+                            yaml = default_inline_tag + ' { '
 
                 ind = 0
                 for part in key.split('.'):
